@@ -5,6 +5,6 @@ CONSTANTS
   ExportOn = TRUE
 INIT Init
 NEXT Next
-INVARIANTS InvGradeConsistent InvAnswerBacked InvConsensusHonoured InvSymmetric InvMonotone
+INVARIANTS InvGradeConsistent InvReportHonoured InvAnswerBacked InvConsensusHonoured InvSymmetric InvMonotone
 ACTION_CONSTRAINT Export
 CHECK_DEADLOCK FALSE
